@@ -18,7 +18,10 @@
 package c37
 
 import (
+	"bytes"
 	"context"
+	"crypto/sha1"
+	"encoding/hex"
 	"encoding/json"
 	"fmt"
 	"regexp"
@@ -30,6 +33,7 @@ import (
 	"github.com/dolthub/dolt/go/libraries/doltcore/schema/encoding"
 	"github.com/dolthub/dolt/go/libraries/doltcore/sqle/dsess"
 	"github.com/dolthub/dolt/go/store/types"
+	"github.com/dolthub/go-mysql-server/sql/expression/function/vector"
 
 	"verifharness/hk"
 	"verifharness/util"
@@ -46,8 +50,9 @@ type Stmt struct {
 }
 
 type Case struct {
-	Main   []Stmt `json:"main"`
-	Branch []Stmt `json:"branch"`
+	Main   []Stmt   `json:"main"`
+	Branch []Stmt   `json:"branch"`
+	Extra  []string `json:"extra"` // run in a third repository C: tables with fulltext / vector indexes and foreign keys (round trip only)
 }
 
 type ColTag struct {
@@ -90,22 +95,66 @@ type ColF struct {
 	Virtual  bool   `json:"virtual"`
 	Comment  string `json:"comment"`
 	Hidden   bool   `json:"hidden"`
+	SysHid   bool   `json:"syshidden"`
 	TyEq     bool   `json:"tyeq"` // TypeInfo.Equals(stored, round-tripped) (only meaningful on the round-tripped side)
 }
 
+type FTF struct {
+	Config   string `json:"config"`
+	Pos      string `json:"pos"`
+	DocCount string `json:"doccount"`
+	Global   string `json:"global"`
+	RowCount string `json:"rowcount"`
+	KeyType  int    `json:"keytype"`
+	KeyName  string `json:"keyname"`
+	KeyPos   []int  `json:"keypos"`
+}
+
 type IdxF struct {
-	Name    string   `json:"name"`
-	Tags    []uint64 `json:"tags"`
-	Unique  bool     `json:"unique"`
-	Comment string   `json:"comment"`
-	Prefix  []int    `json:"prefix"`
-	Flags   int      `json:"flags"` // bit0 user-defined, bit1 spatial, bit2 fulltext, bit3 vector
+	Name      string   `json:"name"`
+	Tags      []uint64 `json:"tags"`
+	Unique    bool     `json:"unique"`
+	Comment   string   `json:"comment"`
+	Prefix    []int    `json:"prefix"`
+	UserDef   bool     `json:"userdef"`
+	Spatial   bool     `json:"spatial"`
+	Fulltext  bool     `json:"fulltext"`
+	Vector    bool     `json:"vector"`
+	Predicate string   `json:"predicate"`
+	FT        FTF      `json:"ft"`
+	VecDist   int      `json:"vecdist"` // 0 none (zero value), 1 L2Squared, 2 anything else
 }
 
 type ChkF struct {
 	Name     string `json:"name"`
 	Expr     string `json:"expr"`
 	Enforced bool   `json:"enforced"`
+	NotValid bool   `json:"notvalid"`
+}
+
+// FKF is one doltdb.ForeignKey, field by field.
+type FKF struct {
+	Name      string   `json:"name"`
+	Table     string   `json:"table"` // schema NUL name when schema-qualified
+	Index     string   `json:"index"`
+	Cols      []uint64 `json:"cols"`
+	RefTable  string   `json:"reftable"`
+	RefIndex  string   `json:"refindex"`
+	RefCols   []uint64 `json:"refcols"`
+	OnUpdate  int      `json:"onupdate"`
+	OnDelete  int      `json:"ondelete"`
+	UnresCols []string `json:"unrescols"`
+	UnresRef  []string `json:"unresref"`
+	NotValid  bool     `json:"notvalid"`
+	Match     int      `json:"match"`
+}
+
+type FKObs struct {
+	Env    string `json:"env"`
+	Err    string `json:"err"`
+	Stored []FKF  `json:"stored"`
+	Back   []FKF  `json:"back"`
+	Twice  bool   `json:"twice"` // serializing twice, and serializing the deserialized collection, give identical bytes
 }
 
 type SchF struct {
@@ -125,6 +174,11 @@ type RT struct {
 	Back   SchF   `json:"back"`
 	Equal  bool   `json:"equal"` // schema.SchemasAreEqual(stored, back)
 	Create string `json:"create"` // SHOW CREATE TABLE in repository A (b1)
+	Env    string `json:"env"`    // "A" (branch b1 of repository A) or "C" (the extra script's repository)
+	Twice  bool   `json:"twice"`  // SerializeSchema(sch) twice: identical bytes
+	Reser  bool   `json:"reser"`  // SerializeSchema(DeserializeSchema(bytes)) = bytes
+	Bytes  string `json:"bytes"`  // sha1 of the serialized message
+	Hash   string `json:"hash"`   // table.GetSchemaHash
 }
 
 type Obs struct {
@@ -140,6 +194,11 @@ type Obs struct {
 	Merged   []Tbl             `json:"merged"`
 	RT       []RT              `json:"rt"`
 	CreateB  map[string]string `json:"createb"` // SHOW CREATE TABLE in repository B
+	BytesB   map[string]string `json:"bytesb"`  // sha1 of SerializeSchema of the table's schema as read in repository B
+	HashB    map[string]string `json:"hashb"`   // table.GetSchemaHash in repository B
+	HashB2   map[string]string `json:"hashb2"`  // table.GetSchemaHash on branch b2 of repository A
+	FKs      []FKObs           `json:"fks"`
+	ExtraErr []string          `json:"extraerr"`
 }
 
 var simpleRe = regexp.MustCompile("[^a-zA-Z0-9]+")
@@ -333,7 +392,7 @@ func schFields(sch, ref schema.Schema) SchF {
 	for i, c := range sch.GetAllCols().GetColumns() {
 		cf := ColF{Name: c.Name, Tag: c.Tag, Ty: fmt.Sprintf("%s#%d", c.TypeInfo.ToSqlType().String(), c.TypeInfo.Encoding()),
 			Nullable: c.IsNullable(), PK: c.IsPartOfPK, AutoInc: c.AutoIncrement, Default: c.Default, Gen: c.Generated,
-			OnUpd: c.OnUpdate, Virtual: c.Virtual, Comment: c.Comment, Hidden: c.Hidden || c.SystemHidden}
+			OnUpd: c.OnUpdate, Virtual: c.Virtual, Comment: c.Comment, Hidden: c.Hidden, SysHid: c.SystemHidden}
 		if i < len(refCols) {
 			cf.TyEq = c.TypeInfo.Equals(refCols[i].TypeInfo) && c.Kind == refCols[i].Kind
 		}
@@ -345,23 +404,26 @@ func schFields(sch, ref schema.Schema) SchF {
 		for _, p := range ix.PrefixLengths() {
 			xf.Prefix = append(xf.Prefix, int(p))
 		}
-		if ix.IsUserDefined() {
-			xf.Flags |= 1
+		xf.UserDef, xf.Spatial, xf.Fulltext, xf.Vector, xf.Predicate = ix.IsUserDefined(), ix.IsSpatial(), ix.IsFullText(), ix.IsVector(), ix.Predicate()
+		fp := ix.FullTextProperties()
+		xf.FT = FTF{Config: fp.ConfigTable, Pos: fp.PositionTable, DocCount: fp.DocCountTable, Global: fp.GlobalCountTable, RowCount: fp.RowCountTable,
+			KeyType: int(fp.KeyType), KeyName: fp.KeyName, KeyPos: []int{}}
+		for _, p := range fp.KeyPositions {
+			xf.FT.KeyPos = append(xf.FT.KeyPos, int(p))
 		}
-		if ix.IsSpatial() {
-			xf.Flags |= 2
-		}
-		if ix.IsFullText() {
-			xf.Flags |= 4
-		}
-		if ix.IsVector() {
-			xf.Flags |= 8
+		switch ix.VectorProperties().DistanceType.(type) {
+		case nil:
+			xf.VecDist = 0
+		case vector.DistanceL2Squared:
+			xf.VecDist = 1
+		default:
+			xf.VecDist = 2
 		}
 		f.Idx = append(f.Idx, xf)
 	}
 	if sch.Checks() != nil {
 		for _, ck := range sch.Checks().AllChecks() {
-			f.Chk = append(f.Chk, ChkF{Name: ck.Name(), Expr: ck.Expression(), Enforced: ck.Enforced()})
+			f.Chk = append(f.Chk, ChkF{Name: ck.Name(), Expr: ck.Expression(), Enforced: ck.Enforced(), NotValid: ck.IsNotValid()})
 		}
 	}
 	f.Coll = int(sch.GetCollation())
@@ -370,7 +432,9 @@ func schFields(sch, ref schema.Schema) SchF {
 	return f
 }
 
-func roundTrips(s *util.Session) ([]RT, error) {
+func sha(b []byte) string { h := sha1.Sum(b); return hex.EncodeToString(h[:]) }
+
+func roundTrips(s *util.Session, env string) ([]RT, error) {
 	rs, err := roots(s)
 	if err != nil {
 		return nil, err
@@ -383,7 +447,7 @@ func roundTrips(s *util.Session) ([]RT, error) {
 	sort.Strings(names)
 	out := []RT{}
 	for _, n := range names {
-		rt := RT{Table: n}
+		rt := RT{Table: n, Env: env}
 		t, ok, err := rs.Working.GetTable(ctx, doltdb.TableName{Name: n})
 		if err != nil || !ok {
 			return nil, fmt.Errorf("GetTable %s: %v %v", n, ok, err)
@@ -403,6 +467,16 @@ func roundTrips(s *util.Session) ([]RT, error) {
 		} else {
 			rt.Back = schFields(back, sch)
 			rt.Equal = schema.SchemasAreEqual(sch, back)
+			rt.Bytes = sha([]byte(msg))
+			if msg2, err := encoding.SerializeSchema(ctx, vrw, sch); err == nil {
+				rt.Twice = bytes.Equal([]byte(msg), []byte(msg2))
+			}
+			if msg3, err := encoding.SerializeSchema(ctx, vrw, back); err == nil {
+				rt.Reser = bytes.Equal([]byte(msg), []byte(msg3))
+			}
+		}
+		if h, err := t.GetSchemaHash(ctx); err == nil {
+			rt.Hash = h.String()
 		}
 		r := s.Exec("show create table `" + n + "`")
 		if r.Err == "" && len(r.Rows) == 1 && len(r.Rows[0]) == 2 {
@@ -413,6 +487,90 @@ func roundTrips(s *util.Session) ([]RT, error) {
 		out = append(out, rt)
 	}
 	return out, nil
+}
+
+// schemaIDs: per table of the session's working root, sha1 of SerializeSchema and the stored schema hash.
+func schemaIDs(s *util.Session) (map[string]string, map[string]string, error) {
+	rs, err := roots(s)
+	if err != nil {
+		return nil, nil, err
+	}
+	ctx := s.Ctx
+	names, err := rs.Working.GetTableNames(ctx, doltdb.DefaultSchemaName, true)
+	if err != nil {
+		return nil, nil, err
+	}
+	bs, hs := map[string]string{}, map[string]string{}
+	for _, n := range names {
+		t, ok, err := rs.Working.GetTable(ctx, doltdb.TableName{Name: n})
+		if err != nil || !ok {
+			return nil, nil, fmt.Errorf("GetTable %s: %v %v", n, ok, err)
+		}
+		sch, err := t.GetSchema(ctx)
+		if err != nil {
+			return nil, nil, err
+		}
+		if msg, err := encoding.SerializeSchema(ctx, t.ValueReadWriter(), sch); err == nil {
+			bs[n] = sha([]byte(msg))
+		}
+		if h, err := t.GetSchemaHash(ctx); err == nil {
+			hs[n] = h.String()
+		}
+	}
+	return bs, hs, nil
+}
+
+func fkFields(fkc *doltdb.ForeignKeyCollection) []FKF {
+	out := []FKF{}
+	enc := func(tn doltdb.TableName) string {
+		if tn.Schema == "" {
+			return tn.Name
+		}
+		return tn.Schema + "\x00" + tn.Name
+	}
+	for _, fk := range fkc.AllKeys() {
+		f := FKF{Name: fk.Name, Table: enc(fk.TableName), Index: fk.TableIndex, Cols: append([]uint64{}, fk.TableColumns...),
+			RefTable: enc(fk.ReferencedTableName), RefIndex: fk.ReferencedTableIndex, RefCols: append([]uint64{}, fk.ReferencedTableColumns...),
+			OnUpdate: int(fk.OnUpdate), OnDelete: int(fk.OnDelete),
+			UnresCols: append([]string{}, fk.UnresolvedFKDetails.TableColumns...), UnresRef: append([]string{}, fk.UnresolvedFKDetails.ReferencedTableColumns...),
+			NotValid: fk.IsNotValid, Match: int(fk.MatchType)}
+		out = append(out, f)
+	}
+	return out
+}
+
+// fkRoundTrip pushes the root's foreign key collection through the real SerializeForeignKeys / DeserializeForeignKeys.
+func fkRoundTrip(s *util.Session, env string) (FKObs, error) {
+	o := FKObs{Env: env, Stored: []FKF{}, Back: []FKF{}}
+	rs, err := roots(s)
+	if err != nil {
+		return o, err
+	}
+	ctx := s.Ctx
+	fkc, err := rs.Working.GetForeignKeyCollection(ctx)
+	if err != nil {
+		return o, err
+	}
+	o.Stored = fkFields(fkc)
+	vrw := rs.Working.VRW()
+	v, err := doltdb.SerializeForeignKeys(ctx, vrw, fkc)
+	if err != nil {
+		o.Err = "serialize: " + err.Error()
+		return o, nil
+	}
+	back, err := doltdb.DeserializeForeignKeys(ctx, vrw.Format(), v)
+	if err != nil {
+		o.Err = "deserialize: " + err.Error()
+		return o, nil
+	}
+	o.Back = fkFields(back)
+	v2, err2 := doltdb.SerializeForeignKeys(ctx, vrw, fkc)
+	v3, err3 := doltdb.SerializeForeignKeys(ctx, vrw, back)
+	if err2 == nil && err3 == nil {
+		b1, b2, b3 := []byte(v.(types.SerialMessage)), []byte(v2.(types.SerialMessage)), []byte(v3.(types.SerialMessage))
+		o.Twice = bytes.Equal(b1, b2) && bytes.Equal(b1, b3)
+	}
+	return o, nil
 }
 
 func finalTables(s *util.Session) ([]Tbl, error) {
@@ -464,8 +622,14 @@ func Run(raw json.RawMessage) (any, error) {
 	if o.B1, err = finalTables(sA); err != nil {
 		return nil, err
 	}
-	if o.RT, err = roundTrips(sA); err != nil {
+	if o.RT, err = roundTrips(sA, "A"); err != nil {
 		return nil, err
+	}
+	o.FKs = []FKObs{}
+	if fo, err := fkRoundTrip(sA, "A"); err != nil {
+		return nil, err
+	} else {
+		o.FKs = append(o.FKs, fo)
 	}
 	if err := sA.MustExec("call dolt_checkout('main')", "call dolt_checkout('-b','b2')"); err != nil {
 		return nil, err
@@ -479,6 +643,9 @@ func Run(raw json.RawMessage) (any, error) {
 		return nil, err
 	}
 	if o.B2, err = finalTables(sA); err != nil {
+		return nil, err
+	}
+	if _, o.HashB2, err = schemaIDs(sA); err != nil {
 		return nil, err
 	}
 	o.Merge = sA.Exec("call dolt_merge('b1')")
@@ -520,6 +687,9 @@ func Run(raw json.RawMessage) (any, error) {
 	if o.EnvB, err = finalTables(sB); err != nil {
 		return nil, err
 	}
+	if o.BytesB, o.HashB, err = schemaIDs(sB); err != nil {
+		return nil, err
+	}
 	for _, t := range o.EnvB {
 		rr := sB.Exec("show create table `" + t.Name + "`")
 		if rr.Err == "" && len(rr.Rows) == 1 && len(rr.Rows[0]) == 2 {
@@ -527,6 +697,33 @@ func Run(raw json.RawMessage) (any, error) {
 		} else {
 			o.CreateB[t.Name] = "ERR " + rr.Err
 		}
+	}
+
+	// ---- repository C: the extra script (round trips only) ----
+	o.ExtraErr = []string{}
+	if len(c.Extra) > 0 {
+		envC, err := util.NewEnv(false)
+		if err != nil {
+			return nil, err
+		}
+		defer envC.Close()
+		sC, err := envC.NewSession()
+		if err != nil {
+			return nil, err
+		}
+		for _, q := range c.Extra {
+			o.ExtraErr = append(o.ExtraErr, sC.Exec(q).Err)
+		}
+		rtc, err := roundTrips(sC, "C")
+		if err != nil {
+			return nil, err
+		}
+		o.RT = append(o.RT, rtc...)
+		fo, err := fkRoundTrip(sC, "C")
+		if err != nil {
+			return nil, err
+		}
+		o.FKs = append(o.FKs, fo)
 	}
 	return o, nil
 }
